@@ -146,13 +146,21 @@ func (w *World) lemmaObligations(lm *Lemma) (obls []*Obligation, err error) {
 	return obls, nil
 }
 
+// baseKey strips a contract-variant suffix: "geometry.NewLine@order" -> "geometry.NewLine".
+func baseKey(k string) string {
+	if i := strings.Index(k, "@"); i >= 0 {
+		return k[:i]
+	}
+	return k
+}
+
 func verifyKeys(w *World, keys []string, lemmas []string, smtDir string, timeoutMs, par int, verbose bool, implProp string) []*FuncReport {
 	var reports []*FuncReport
 	var all []*Obligation
 	type span struct{ lo, hi int }
 	spans := map[int]span{}
 	for _, k := range keys {
-		fi := w.Funcs[k]
+		fi := w.Funcs[baseKey(k)]
 		fc := w.CS.Funcs[k]
 		rep := &FuncReport{Key: k}
 		reports = append(reports, rep)
